@@ -29,6 +29,11 @@ WVar(t) == FDiv(t.ss, FInt(IF t.n > 1 THEN t.n ELSE 1))
 EUpd(t, v, a) == [n |-> t.n + 1, val |-> FAdd(FMul(FSub(F1, a), t.val), FMul(a, v)), ss |-> t.ss]
 
 TUpd(kind, a, t, v) == IF kind = "es" THEN EUpd(t, v, a) ELSE WUpd(t, v)
+\* value / count part of the update only: where a tracker is observed through get() alone (inside a
+\* MultiValueTracker, or as loss tracker of an explainer) the Welford sum of squares is not part of the
+\* abstract state (and its 4th-power magnitudes would not fit TLC's integers)
+TUpdV(kind, a, t, v) == IF kind = "es" THEN EUpd(t, v, a)
+                        ELSE [n |-> t.n + 1, val |-> FAdd(t.val, FDiv(FSub(v, t.val), FInt(t.n + 1))), ss |-> t.ss]
 
 (* ---- MultiValueTracker: [trk : key -> tracker record, n] ---- *)
 MVInit == [trk |-> <<>>, n |-> 0]
@@ -36,7 +41,7 @@ MVInit == [trk |-> <<>>, n |-> 0]
 \* get 0, new keys start a fresh copy of the base tracker with their value
 MVUpd(kind, a, m, upd) ==
    [trk |-> [k \in (DOMAIN m.trk) \cup (DOMAIN upd) |->
-               TUpd(kind, a, IF k \in DOMAIN m.trk THEN m.trk[k] ELSE TInit,
+               TUpdV(kind, a, IF k \in DOMAIN m.trk THEN m.trk[k] ELSE TInit,
                              IF k \in DOMAIN upd THEN upd[k] ELSE F0)],
     n |-> m.n + 1]
 MVGet(m) == [k \in DOMAIN m.trk |-> m.trk[k].val]
